@@ -933,8 +933,10 @@ class WorkflowConductor(object):
         machines.TaskStateMachine.process_event(self.workflow_state, task_state_entry, event)
         new_task_status = task_state_entry.get("status", statuses.UNSET)
 
-        # If retrying, staged the task to be returned in get_next_tasks.
-        if new_task_status == statuses.RETRYING:
+        # If retrying, staged the task to be returned in get_next_tasks. This is done once when
+        # the task becomes retrying. Any later event that leaves the task retrying (i.e. the
+        # action execution for the retry is requested or scheduled) must not count as a retry.
+        if new_task_status == statuses.RETRYING and old_task_status != statuses.RETRYING:
             # Increment the number of times that the task has retried.
             task_state_entry["retry"]["tally"] += 1
 
